@@ -72,6 +72,18 @@ def gen_field(kind, lv, f, idx, centres, seed=0):
         d = int(kind[5:])
         idx2 = [np.zeros_like(a) if n == d else a for n, a in enumerate(idx)]
         return np.broadcast_to(coded(lv, f, idx2, seed), shape).copy()
+    if kind.startswith('hconst'):
+        d = int(kind[6:])
+        idx2 = [np.zeros_like(a) if n == d else a for n, a in enumerate(idx)]
+        v = np.broadcast_to(coded(lv, f, idx2, seed), shape).copy()
+        s_ = None
+        for n, a in enumerate(idx):
+            if n != d:
+                s_ = a if s_ is None else s_ + 3 * a
+        s_ = np.broadcast_to(s_, shape)
+        for k_, bits_ in enumerate(HOSTILE_BITS[2:]):       # +inf, -inf, -0.0, denormal, 1e300, 1e-300
+            v[s_ % 11 == k_ + 1] = np.array([bits_], dtype=np.uint64).view(np.float64)[0]
+        return v
     if kind == 'affidx':
         v = 1000.0 * (lv + 1) + 100.0 * f
         for n, a in enumerate(idx):
